@@ -1,10 +1,10 @@
 /-
   GIV.Lemmas.ParWorkStep — the transition function of GIV.Model.ParWork as an inductive relation
-  (one constructor per program point), the facts of GIV.Gen.Par it depends on, and counting lemmas.
+  (one constructor per program point), the facts of GIV.Gen.ParWork it depends on, and counting lemmas.
 -/
 import GIV.Model.ParWork
 namespace GIV.ParWork
-open GIV.Gen.Par
+open GIV.Gen.ParWork
 
 /-! ### counting tasks by program counter class -/
 
